@@ -7,7 +7,11 @@ open LJT.Extent LJT.DecompCtl
 
 /-- the model's prediction of which bytes of the documented buffer a decompression writes -/
 def opC11 : List String → Option String
-  | ["g11d", ss, w, h, _seed, pf, sfi, pad, _bu, _fe, crop, prec, _fl] => do
+  | ["g11d", ss, w, h, _seed, pf, sfi, pad, _bu, _fe, crop, prec, fl] => do
+    -- flag bit 2: the region was set under another scaling factor (call history): what is legitimately written then is decided by the
+    -- oracle (guard pages), not by the extent model
+    let fl ← nat? fl
+    if fl ≥ 4 then none
     let ss ← nat? ss; let w ← nat? w; let h ← nat? h; let pf ← nat? pf; let sfi ← nat? sfi; let pad ← nat? pad
     let crop ← nat? crop; let prec ← nat? prec
     let nc := if ss == 3 then 1 else 3
